@@ -30,7 +30,7 @@ from __future__ import annotations
 
 import ast
 
-from ..astx import call_name, calls, dotted, enclosing_stmt, expand, last
+from ..astx import call_name, calls, dotted, expand, last
 from ..index import AnchorError, FuncNode, Module, Repo, parent, walk_shallow
 from ..selftest import Twin
 
